@@ -13,22 +13,29 @@ EXTENDS Integers, Sequences, FiniteSets, TLC
 CONSTANTS Datas,
           DEV_CopyShares      \* TRUE: the "copy" shares its fitted arrays with the original (views instead of copies)
 
-VARIABLES copyFlag, trainable, orig, inner, aliased, fitted
-vars == <<copyFlag, trainable, orig, inner, aliased, fitted>>
+VARIABLES copyFlag, trainable, orig, inner, aliased, fitted,
+          last               \* what the CALLER last trained its own estimator on (history of the caller, not of the wrapper)
+vars == <<copyFlag, trainable, orig, inner, aliased, fitted, last>>
 Pre == "pretrained"                                  \* what the caller's estimator was trained on
 Init == /\ copyFlag \in BOOLEAN /\ trainable \in BOOLEAN
-        /\ orig = Pre /\ inner = "none" /\ aliased = FALSE /\ fitted = FALSE
-\* TransferTransformer.fit(X, y)
+        /\ orig = Pre /\ inner = "none" /\ aliased = FALSE /\ fitted = FALSE /\ last = Pre
+\* TransferTransformer.fit(X, y): the working estimator is the caller's object or a copy of it AS IT IS NOW
 Fit(d) == /\ aliased' = (~copyFlag \/ DEV_CopyShares)
           /\ inner' = IF trainable THEN d ELSE orig
           /\ orig' = IF trainable /\ (~copyFlag \/ DEV_CopyShares) THEN d ELSE orig
-          /\ fitted' = TRUE /\ UNCHANGED <<copyFlag, trainable>>
-Next == \E d \in Datas : Fit(d)
+          /\ fitted' = TRUE /\ UNCHANGED <<copyFlag, trainable, last>>
+\* the caller trains its own estimator again (between two fits of the wrapper): an aliased working estimator follows
+Retrain(d) == /\ orig' = d /\ last' = d
+              /\ inner' = IF aliased THEN d ELSE inner
+              /\ UNCHANGED <<copyFlag, trainable, aliased, fitted>>
+Next == \E d \in Datas : Fit(d) \/ Retrain(d)
 Spec == Init /\ [][Next]_vars
-\* unless trainable, fit never changes the wrapped estimator or its predictions
-Frozen == (fitted /\ ~trainable) => (inner = Pre /\ orig = Pre)
-\* with copy_estimator the original object is never modified
-OriginalUntouched == copyFlag => orig = Pre
+\* unless trainable, the wrapper's fit never changes the wrapped estimator
+Frozen == (fitted /\ ~trainable) => orig = last
+\* with copy_estimator the original object is never modified by the wrapper
+OriginalUntouched == copyFlag => orig = last
+\* a non-trainable fit works with the estimator as it is at that fit (not with an older copy)
+FreshCopy == [][\A d \in Datas : (Fit(d) /\ ~trainable) => inner' = orig]_vars
 \* transform returns the working estimator's output
 TrainsLikeDirect == (fitted /\ trainable) => inner \in Datas
 
